@@ -47,6 +47,7 @@ def run(ctx):
     who_may_call(rep, 'R12.c', prog, cg)
     skippers.arms_agree(rep, 'R12.b', prog)
     skippers.struct_loop(rep, 'R12.b', prog)
+    skippers.struct_pairing(rep, 'R12.b', prog)
     rep.floor('R12.a', 66)
     rep.floor('R12.c', 30)
     rep.floor('R12.b', 28)
